@@ -23,7 +23,7 @@ import warnings
 import asynkit
 from asynkit.coroutine import coro_is_finished, coro_is_new, coro_is_suspended
 
-from .c01_lang import EXC_CLS, compile_body, kind_of
+from .c01_lang import EXC_CLS, compile_body, kind_of, make_exc
 
 
 import sys
@@ -51,6 +51,12 @@ class Env:
         self.coro = None
         self.top = {}
         self.children = {}
+        self.raised = []        # exception objects made by `raise` statements of the bodies
+
+    def mk(self, kind):
+        e = make_exc(kind)
+        self.raised.append(e)
+        return e
 
     @staticmethod
     def val(v):
@@ -86,17 +92,28 @@ def fut_text(f) -> str:
     return st + ("b" if f._asyncio_future_blocking else "-") + ("r" if getattr(f, "cancel_requested", False) else "-")
 
 
-def outcome_text(t) -> str:
+def outcome_text(t, env=None, coarse=False) -> str:
+    """what `await t` gives: R<value> or the canonical exception (type + args); a trailing "~" says
+    it is the very object a body raised (a Task preserves identity; stripped before the model diff)"""
     if t is None or not t.done():
         return "-"
     if t.cancelled():
+        try:
+            t.exception()
+            e = None
+        except asyncio.CancelledError as x:
+            e = x
+    else:
+        e = t.exception()
+    if e is None:
+        return "R" + str(Env.val(t.result()))
+    same = "~" if env is not None and any(e is r for r in env.raised) else ""
+    k = kind_of(e)
+    if coarse and isinstance(e, asyncio.CancelledError):
         return "CA"
-    e = t.exception()
-    if e is not None:
-        # a Future holding a CancelledError instance (as_future of a body that raised it in the
-        # prefix) and a cancelled Task give the same thing to whoever awaits them
-        return "CA" if kind_of(e) == "CA" else "X" + kind_of(e)
-    return "R" + str(Env.val(t.result()))
+    # a Future holding a CancelledError instance (as_future of a body that raised it in the prefix)
+    # and a cancelled Task give the same thing to whoever awaits them
+    return (k if isinstance(e, asyncio.CancelledError) else "X" + k) + same
 
 
 def log_text(entries) -> str:
@@ -138,8 +155,16 @@ def _finish_loop(loop):
 
 
 def custom_factory(coro):
-    """A user task factory: a Task subclass, own name."""
+    """A user task factory: inspects what it is given (must be something a Task accepts, with the
+    coroutine methods), creates a Task subclass with its own name."""
+    assert asyncio.iscoroutine(coro), type(coro)
+    for m in ("send", "throw", "close"):
+        assert callable(getattr(coro, m)), m
+    factory_calls.append(type(coro).__name__)
     return CustomTask(coro, name="custom")
+
+
+factory_calls: list = []
 
 
 class CustomTask(asyncio.Task):
@@ -201,10 +226,16 @@ def run_single(case, snapshots=True):
             if mode == "PS":     # plain Task whose first step has run ("plain-started")
                 await asyncio.sleep(0)
 
+        seen = []
+
         def snap():
             d = env.log[mark[0]:]
             mark[0] = len(env.log)
-            snaps.append(f"{log_text(d)} | {outcome_text(t)} | "
+            # read the outcome once: a cancelled Task hands out the CancelledError its coroutine
+            # raised to the first reader only (later readers get a fresh one) - asyncio's behaviour
+            if not seen and t.done():
+                seen.append(outcome_text(t, env))
+            snaps.append(f"{log_text(d)} | {seen[0] if seen else '-'} | "
                          + " ".join(fut_text(f) for f in env.futs)
                          + f" | nt{len(asyncio.all_tasks()) - n0} | {phase(env.coro)}")
 
@@ -273,8 +304,12 @@ def run_multi(case):
         child_envs = {}
         n0 = len(asyncio.all_tasks())
 
+        raised = []
+        awaited_top = {st[1] for p in case["progs"] for st in _flat(p) if st[0] == "W"}
+
         def mkenv():
             e = Env()
+            e.raised = raised
             e.futs = futs
             e.top = top
             e.children = kids
@@ -319,8 +354,11 @@ def run_multi(case):
                 top[ev[1]].cancel()
         res["logs"] = [log_text(e.log) for e in envs]
         res["child_logs"] = {str(j): log_text(e.log) for j, e in sorted(child_envs.items())}
-        res["out"] = [outcome_text(top[i]) for i in range(len(envs))]
-        res["child_out"] = {str(j): outcome_text(kids[j]) for j in sorted(kids)}
+        # an awaitable that another coroutine awaited has already handed out its CancelledError
+        # object (see run_single); there only "cancelled" is compared (the awaiting body's own
+        # handler log carries the precise type)
+        res["out"] = [outcome_text(top[i], envs[0], coarse=i in awaited_top) for i in range(len(envs))]
+        res["child_out"] = {str(j): outcome_text(kids[j], envs[0], coarse=True) for j in sorted(kids)}
         res["futs"] = [fut_text(f)[:-2] + fut_text(f)[-1:] for f in futs]
         res["phases"] = [phase(e.coro) for e in envs]
         res["child_phases"] = {str(j): phase(e.coro) for j, e in sorted(child_envs.items())}
@@ -335,6 +373,17 @@ def run_multi(case):
         _finish_loop(loop)
     del keep
     return res
+
+
+def _flat(stmts):
+    for st in stmts:
+        yield st
+        if st[0] == "T":
+            yield from _flat(st[1])
+            yield from _flat(st[4])
+            yield from _flat(st[5])
+        elif st[0] == "C":
+            yield from _flat(st[1])
 
 
 def collect():
